@@ -307,7 +307,17 @@ def run(chk: Check, repo: Repo) -> None:
     asg = [n_ for n_ in walk_local(sl.node) if isinstance(n_, ast.Assign) and ast.unparse(n_.targets[0]) == "self.total_length"]
     ok = len(asg) == 1 and ast.unparse(asg[0].value).replace(" ", "") in ("KNXIPHeader.HEADERLENGTH+body.calculated_length()", "body.calculated_length()+KNXIPHeader.HEADERLENGTH")
     chk.ob("header-length-is-header-plus-body", sl.site(), ok, f"set_length: {ast.unparse(asg[0]) if asg else '?'}", key="frame|set_length")
-    ok2 = any(call_name(c_) == "header.set_length" for c_ in calls(ifb.node)) and any(isinstance(n_, ast.Assign) and ast.unparse(n_.targets[0]) == "header.service_type_ident" and ast.unparse(n_.value) == "knxip_body.__class__.SERVICE_TYPE" for n_ in walk_local(ifb.node))
+    # the header object (whatever the local is called) is a fresh KNXIPHeader that gets the body class's service type and
+    # set_length(<the body>), and is the header of the returned frame together with that body
+    bp = ifb.node.args.args[0].arg
+    hvars = {n_.targets[0].id for n_ in walk_local(ifb.node) if isinstance(n_, ast.Assign) and len(n_.targets) == 1 and isinstance(n_.targets[0], ast.Name) and isinstance(n_.value, ast.Call) and call_name(n_.value) == "KNXIPHeader" and not n_.value.args and not n_.value.keywords}
+    ok2 = len(hvars) == 1
+    if ok2:
+        hv = next(iter(hvars))
+        ok2 = any(call_name(c_) == f"{hv}.set_length" and [ast.unparse(a) for a in c_.args] == [bp] for c_ in calls(ifb.node))
+        ok2 = ok2 and any(isinstance(n_, ast.Assign) and ast.unparse(n_.targets[0]) == f"{hv}.service_type_ident" and ast.unparse(n_.value) in (f"{bp}.__class__.SERVICE_TYPE", f"type({bp}).SERVICE_TYPE", f"{bp}.SERVICE_TYPE") for n_ in walk_local(ifb.node))
+        rets_ = [n_ for n_ in walk_local(ifb.node) if isinstance(n_, ast.Return)]
+        ok2 = ok2 and len(rets_) == 1 and isinstance(rets_[0].value, ast.Call) and call_name(rets_[0].value) == "KNXIPFrame" and {k.arg: ast.unparse(k.value) for k in rets_[0].value.keywords} == {"header": hv, "body": bp}
     chk.ob("header-length-is-header-plus-body", ifb.site(), ok2, "init_from_body sets the service type from the body class and the length through set_length", key="frame|init_from_body")
     fr = repo.func("xknx.knxip.knxip", "KNXIPFrame.to_knx")
     r = [n_ for n_ in walk_local(fr.node) if isinstance(n_, ast.Return)]
